@@ -248,6 +248,19 @@ func runC10(seed int64, tier string, sc *Script) map[string]any {
 	kills, informative := 0, 0
 	for si := 0; si < scenarios; si++ {
 		u := GenDAG(rng, GenCfg{Blobs: 2, Manifests: 2 + rng.Intn(3), Subjects: true, Indexes: true, NoOctet: true})
+		custom := si%9 == 5 && (si/9)%2 == 0
+		if custom {
+			// delete with auto-GC of a tagged image that has an untagged referrer (and a referrer
+			// of that referrer): the cascade removes manifests that index.json lists by digest
+			u = NewUniverse()
+			cfg := u.AddBlob(ocispec.MediaTypeImageConfig, []byte(fmt.Sprintf("{\"c10\":%d}", si)))
+			l1 := u.AddBlob(ocispec.MediaTypeImageLayer, []byte(fmt.Sprintf("layer-%d", si)))
+			img := u.AddImage(KOCIManifest, cfg.ID, []int{l1.ID}, -1, "", map[string]string{"k": "img"})
+			sb := u.AddBlob(ocispec.MediaTypeImageLayer, []byte(fmt.Sprintf("sig-%d", si)))
+			sig := u.AddImage(KOCIManifest, cfg.ID, []int{sb.ID}, img.ID, "application/vnd.verif.sig", map[string]string{"k": "sig"})
+			u.AddImage(KOCIManifest, cfg.ID, []int{sb.ID}, sig.ID, "application/vnd.verif.att", map[string]string{"k": "att"})
+			u.AddBlob("application/vnd.verif.data", []byte("unused-last"))
+		}
 		mk := func(op string, n *Node, ref string, autosave, autogc bool) crashOp {
 			o := crashOp{Op: op, Ref: ref, AutoSave: autosave, AutoGC: autogc}
 			if n != nil {
@@ -267,7 +280,9 @@ func runC10(seed int64, tier string, sc *Script) map[string]any {
 				manifests = append(manifests, n)
 			}
 		}
-		if len(manifests) > 0 {
+		if custom {
+			prep = append(prep, mk("tag", manifests[0], "v1", true, true)) // only the image is tagged
+		} else if len(manifests) > 0 {
 			prep = append(prep, mk("tag", manifests[rng.Intn(len(manifests))], "v1", true, true))
 			if rng.Intn(2) == 0 {
 				prep = append(prep, mk("tag", manifests[rng.Intn(len(manifests))], "v2", true, true))
@@ -301,7 +316,33 @@ func runC10(seed int64, tier string, sc *Script) map[string]any {
 			victim = mk("delete", u.Nodes[rng.Intn(last)], "", true, false)
 		case "delete-gc":
 			if len(manifests) > 0 {
-				victim = mk("delete", manifests[rng.Intn(len(manifests))], "", true, true)
+				// prefer a manifest whose removal cascades to other *manifests* (a referrer of it,
+				// or a manifest only it lists): those are entries of index.json too
+				var cascading []*Node
+				for _, m := range manifests {
+					for _, o := range manifests {
+						if o.ID == m.ID {
+							continue
+						}
+						if o.Subject == m.ID {
+							cascading = append(cascading, m)
+						}
+						for _, k := range m.Succ {
+							if k == o.ID {
+								cascading = append(cascading, m)
+							}
+						}
+					}
+				}
+				pool := manifests
+				if len(cascading) > 0 {
+					pool = cascading
+					sc.Count("delete-gc:cascades-to-a-manifest")
+				}
+				victim = mk("delete", pool[rng.Intn(len(pool))], "", true, true)
+				if custom {
+					victim = mk("delete", manifests[0], "", true, true)
+				}
 			} else {
 				victim = mk("delete", u.Nodes[0], "", true, true)
 			}
